@@ -20,12 +20,12 @@ def whyV (c : ClassD) : Expr → List String
                    tagIf (!(decide (32 ≤ max (sw c a) (sw c b)) || (leaf a && leaf b))) "narrow-compare"
   | .and a b => whyC c a ++ whyC c b ++ tagIf (!(isBool a && isBool b)) "bool-value"
   | .or a b => whyC c a ++ whyC c b ++ tagIf (!(isBool a && isBool b)) "bool-value"
-  | .ite cnd a b => "ternary" :: (whyC c cnd ++ whyV c a ++ whyV c b)
+  | .ite cnd a b => whyC c cnd ++ whyV c a ++ whyV c b
 def whyC (c : ClassD) : Expr → List String
   | .and a b => whyC c a ++ whyC c b
   | .or a b => whyC c a ++ whyC c b
   | .un .lnot e => whyC c e
-  | .ite cnd a b => "ternary" :: (whyC c cnd ++ whyV c a ++ whyV c b)
+  | .ite cnd a b => whyV c (.ite cnd a b) ++ tagIf (!(decide (32 ≤ sw c (.ite cnd a b)))) "narrow-test"
   | .const v => tagIf (decide (v < 0)) "neg-const"
   | .loc n => tagIf (isPort c n || (lookup c.consts n).isSome) "name-clash"
   | .attr n => tagIf (isPort c n) "port-as-value"
@@ -56,7 +56,8 @@ def whyClass (c : ClassD) : List String :=
   tagIf (!(c.ports.all (fun p => p.attr == p.port))) "attr-ne-port" ++
   tagIf (!(allDistinct (c.ports.map (·.attr) ++ c.state.map (·.1) ++ c.consts.map (·.1) ++ c.params.map (·.1) ++ (if c.isSeq then [c.clk] else [])))) "name-clash" ++
   tagIf (!((newVars c).all (fun n => !(c.params.map (·.1)).contains n && n != c.clk))) "name-clash" ++
-  tagIf (!(c.state.all (fun (_, v) => decide (0 ≤ v)))) "neg-const" ++
+  tagIf (!(c.state.all (fun (_, v) => decide (0 ≤ v)) && c.inits.all (fun (_, v) => decide (0 ≤ v)))) "neg-const" ++
+  tagIf (!(c.state.all (fun (n, v) => lastVal c.inits n == some v) && c.inits.all (fun (n, _) => isState c n))) "init-mismatch" ++
   tagIf (!(c.isSeq || (getsS c.body).all (fun w => !(putsS c.body).contains w))) "read-after-put"
 
 def reasons (c : ClassD) : List String := dedup (whyClass c ++ whyS c c.body)
